@@ -228,6 +228,20 @@ def run(ctx):
                 ops.append(["force", rng.choice(worlds)])
             else:
                 ops.append(["lazy", rng.choice(worlds)])
+        if rng.random() < 0.25:
+            # the same few worlds ranked lazily and then recomputed again and again (more rank computations than there are worlds
+            # while most worlds are still unranked), acceptance asked in between and afterwards
+            few = rng.sample(worlds, min(len(worlds), rng.randint(1, 3)))
+            ops = [["lazy", w] for w in few]
+            total = len(worlds) + rng.randint(0, 3)
+            while len(ops) < total:
+                ops.append(["force", rng.choice(few)])
+                if c["queries"] and rng.random() < 0.15:
+                    ops.append(["accept", rng.randrange(len(c["queries"]))])
+            for qi in range(len(c["queries"])):
+                ops.append(["accept", qi])
+            if rng.random() < 0.5:
+                ops.append(["lazy", rng.choice(worlds)])
         cases.append({"n": n, "base": c["base"], "facts": facts, "fact_forms": [rng.choice(["pysmt", "text", "textmin"]) for _ in facts], "extended": extended, "mode_ext": mode_ext, "ops": ops, "queries": c["queries"], "objsig": objsig})
     impls = pmap(impl_eval, cases, ctx.procs)
     resps = core.driver_batch([driver_line(c) for c in cases])
